@@ -120,7 +120,9 @@ func (p proxy) SubscribeID(action uint32) (func(), chan []byte, error) {
 		if subscriptions == 0 {
 			handler := p.client.State(fmt.Sprintf("%d.%d.%d.handler", p.service, p.object, action), 0)
 			p.client.State(fmt.Sprintf("%d.%d.%d.handler", p.service, p.object, action), -handler)
-			obj := proxyObject{p}
+			// the registration must be removed even if the
+			// context the subscription was made under is done.
+			obj := proxyObject{p.WithContext(context.Background())}
 			err := obj.UnregisterEvent(p.object, action, uint64(handler))
 			if err != nil {
 				log.Printf("failed to unregister event action %d: %s", action, err)
